@@ -245,6 +245,10 @@ class StopFamily(common.Family):
     cfg['stop_exc'] = rng.choice([None, None, 'RuntimeError', 'ValueError'])
     cfg['trigger'] = rng.choice(['steps', 'steps', 'blocked_put', 'blocked_get'])
     cfg['delay'] = rng.randrange(0, 250)
+    # In a third of the runs the stop request may arrive before some producer
+    # has even registered with the queue (a stop is permanent: such a producer
+    # must return at once instead of reviving the queue).
+    cfg['early'] = rng.random() < 0.33
     return cfg
 
   def drive(self, cfg, sim):
@@ -278,7 +282,10 @@ class StopFamily(common.Family):
     def stopper():
       # The stop request is only issued once every producer has registered;
       # a producer that starts after a plain stop is a different scenario.
-      sim.wait_until(lambda: q._enqueue_start >= P, 5000)
+      if not cfg.get('early'):
+        sim.wait_until(lambda: q._enqueue_start >= P, 5000)
+      elif q._enqueue_start < P:
+        sim.count('probe:stop_before_all_producers_registered')
       trig = cfg['trigger']
       if trig == 'blocked_put':
         r = sim.wait_until(lambda: bool(sim.threads_in('put')), cfg['delay'] + 50)
